@@ -18,7 +18,7 @@ circuits are compared with on every run):
   starting from the state the previous one left.
 
 The merging of variables by the compiler (`mux_envs`) is modelled for the core fragment
-(Model/BitSem.lean: scalars, tuples, structs, arrays, `if`, `match`, `&&` / `||`, blocks, `let` with patterns,
+(Model/BitSem.lean: scalars, tuples, structs, enums, arrays, `if`, `match`, `&&` / `||`, blocks, `let` with patterns,
 `let mut`, assignment to a variable and through `.i` / `.f` / `[i]` accessors, `for` loops, calls):
 
 * `C14_compiled_scope`, `C14_compiled_stmts_scope`: the compiled code keeps the scope stack — after
@@ -31,7 +31,7 @@ The merging of variables by the compiler (`mux_envs`) is modelled for the core f
   elements of arrays and components of tuples — the wires of every
   variable in scope carry exactly the value the source semantics give it.
 
-Outside that fragment (enums, for-join loops, constants) the merging is tied to these
+Outside that fragment (for-join loops, constants) the merging is tied to these
 semantics by the correspondence run (programs that return every visible variable).
 -/
 namespace GV
@@ -161,7 +161,7 @@ theorem C14_loop_order (prog : Prog) (fuel : Nat) (env env1 : Env) (p : Pat) (v 
   simp only [hm, hb]
 
 /-- non-vacuity: a shadowing `let` inside a block; afterwards the outer `x` is visible again -/
-example : evalExpr 10 ⟨[], []⟩ [("x", .int 1)]
+example : evalExpr 10 ⟨[], [], []⟩ [("x", .int 1)]
     (.block (.cons (.let_ (.ident "x") (.bool true)) (.cons (.expr (.var "x")) .nil))) =
     .ok (.bool true, [("x", .int 1)]) := by rfl
 
@@ -173,12 +173,12 @@ namespace Bit
 open Src
 
 /-- **the compiled code keeps the scope stack** (expressions) -/
-theorem C14_compiled_scope (call : CallFn) (e : Expr) (benv benv' : BEnv) (t : VTy) (bs : List Bool) (p : P)
+theorem C14_compiled_scope (call : Ctx) (e : Expr) (benv benv' : BEnv) (t : VTy) (bs : List Bool) (p : P)
     (h : bitExpr call benv e = some (t, bs, p, benv')) : shape benv' = shape benv :=
   shapeE call e benv t bs p benv' h
 
 /-- statements only add their own bindings in front of the variables they found -/
-theorem C14_compiled_stmts_scope (call : CallFn) (ss : StmtList) (benv benv' : BEnv) (t : VTy) (bs : List Bool) (p : P)
+theorem C14_compiled_stmts_scope (call : Ctx) (ss : StmtList) (benv benv' : BEnv) (t : VTy) (bs : List Bool) (p : P)
     (h : bitStmts call benv ss = some (t, bs, p, benv')) : ∃ pre, shape benv' = pre ++ shape benv :=
   shapeSS call ss benv t bs p benv' h
 
@@ -191,15 +191,15 @@ theorem C14_merge (c : Bool) (a b : BEnv) (h : shape a = shape b) : muxEnv c a b
 of every variable in scope encode the value the source semantics give that variable -/
 theorem C14_compiled_state (prog : Prog) (depth fuel : Nat) (env env' : Src.Env) (benv benv' : BEnv) (body : StmtList)
     (t : VTy) (bits : List Bool) (p : P) (v : Val)
-    (henv : EnvRel env benv) (hbits : bitStmts (callAt prog depth) benv body = some (t, bits, p, benv'))
+    (henv : EnvRel env benv) (hbits : bitStmts ⟨callAt prog depth, prog.enum?⟩ benv body = some (t, bits, p, benv'))
     (hsrc : evalStmts fuel prog env body = .ok (v, env')) : EnvRel env' benv' := by
-  have h := (core_all prog (callAt prog depth) (callAt_sound prog depth) fuel).2.1 body env benv _ bits p benv' henv hbits
+  have h := (core_all prog ⟨callAt prog depth, prog.enum?⟩ (callAt_sound prog depth) fuel).2.1 body env benv _ bits p benv' henv hbits
   rw [hsrc] at h
   exact h.2.2
 
 /-- **a call cannot touch the caller's variables**: the callee is compiled with its parameters only, and the
 caller goes on with the variables its argument expressions left -/
-theorem C14_compiled_call_frame (call : CallFn) (fn : String) (args : ExprList) (benv benv' : BEnv) (t : VTy)
+theorem C14_compiled_call_frame (call : Ctx) (fn : String) (args : ExprList) (benv benv' : BEnv) (t : VTy)
     (bs : List Bool) (p : P) (h : bitExpr call benv (.call fn args) = some (t, bs, p, benv')) :
     ∃ vs pargs, bitList call benv args = some (vs, pargs, benv') := by
   simp only [bitExpr] at h
@@ -213,7 +213,7 @@ theorem C14_compiled_call_frame (call : CallFn) (fn : String) (args : ExprList) 
   · simp at h
 
 /-- non-vacuity: `if c { x = 1u8; y = x; } else { y = 2u8; }` — both variables are merged -/
-example : bitStmts (callAt ⟨[], []⟩ 0) [("c", .s .bool, [false]), ("x", .s (.int .u8), enc .u8 7), ("y", .s (.int .u8), enc .u8 0)]
+example : bitStmts ⟨callAt ⟨[], [], []⟩ 0, fun _ => none⟩ [("c", .s .bool, [false]), ("x", .s (.int .u8), enc .u8 7), ("y", .s (.int .u8), enc .u8 0)]
     (.cons (.expr (.ite (.var "c")
       (.block (.cons (.assign "x" .nil (.int 1 .u8)) (.cons (.assign "y" .nil (.var "x")) .nil)))
       (.block (.cons (.assign "y" .nil (.int 2 .u8)) .nil)))) .nil) =
